@@ -2148,7 +2148,7 @@ func (s *netSim) blockSync() {
 		if s.r.Chance(1, 2) && !queued[h] && !queued[h+1] && ht != nil {
 			kinds := []string{"insufficient", "foreign", "other-block", "byz-only"}
 			if s.mode == "C01" && netC01SyncKinds != nil {
-				kinds = append(kinds, "byz-repeated-addr", "byz-repeated-slot", "byz-repeated-addr", "permuted", "other-round")
+				kinds = append(kinds, "byz-repeated-addr", "byz-repeated-slot", "renamed", "permuted", "other-round", "renamed")
 			}
 			kind := kinds[s.r.Intn(len(kinds))]
 			bf, bs := first, second
@@ -2218,7 +2218,11 @@ func (s *netSim) blockSync() {
 			res, rh := proc.Process()
 			s.o.Count("blocksync:bad-" + kind + ":" + res)
 			if res == "processed" || proc.Height() >= h {
-				s.fail("blocksync-adopted-uncommitted", fmt.Sprintf("height %d: the processor adopted a block offered with a %s commit", h, kind))
+				cls := "blocksync-adopted-uncommitted"
+				if kind == "renamed" { // the block is the committed one, the proof names other validators than its signers
+					cls = "blocksync-adopted-on-forged-address-commit"
+				}
+				s.fail(cls, fmt.Sprintf("height %d: the processor adopted a block offered with a %s commit", h, kind))
 				return
 			}
 			if res != "refused" || rh != h {
